@@ -4,6 +4,11 @@ import json, subprocess, os
 V = '/verif'
 props = [json.loads(l) for l in open(f'{V}/properties.jsonl')]
 claims = json.load(open(f'{V}/tools/claims.json'))
+import glob
+for f in sorted(glob.glob(f'{V}/tools/claims.d/C*.json')):
+    pid = os.path.basename(f)[:-5]
+    claims['claimed'][pid] = json.load(open(f))
+    claims['not_applicable'].pop(pid, None)
 def _hook_commits():
     # a hook commit is any commit after the pinned snapshot that touches only guarded contract files (zz_*_verif.go, //go:build verif)
     out = []
